@@ -422,6 +422,16 @@ def rule_t4(ck, prog, S, model, only=None):
                     ev_ = {frozenset(v_[0]) for v_ in lc_.values() if len(v_) > 2 and v_[0]}
                     if ev_:
                         gots_ = ev_
+                if gots_ != wants_ and not adv:
+                    # no advance of its own: the work may be handed to helpers that are listed themselves - the classes they
+                    # are listed with must add up to this recogniser's classes
+                    sub = set()
+                    for c_ in f.calls():
+                        ex2 = spec["advance_guards"].get(c_.get("callee") or "")
+                        if ex2 and model.writes_cursor(c_):
+                            sub |= {frozenset(CS.parse_class(e_, q)) for e_ in ex2}
+                    if sub:
+                        gots_ = sub
                 if gots_ != wants_:
                     same = False
                     detail = "advances over %s, listed %s" % (sorted(show(set(x)) for x in gots_), sorted(show(set(x)) for x in wants_))
